@@ -80,7 +80,7 @@ claim('C11', 'interprocedural ownership/origin analysis of every write on the si
 claim('C12', 'panic-site inventory with local discharge proofs (guards, filter/producer summaries, correlated nil-check tracking) + outcome/error consistency + size-cap gates + error-discipline lint',
       'Static: every non-comma-ok type assertion, slice/string index and slice expression, dereference of the nilable-by-API pointers, call through a nilable verifier field, MustCompile, map update and explicit panic in the product packages is '
       'enumerated and discharged by a proof visible in the code (dominating guard, loop induction over the same/equal-length slice, producer filter summary, constructor post-condition) or by a table line with reason; the two verifier methods '
-      'return (outcome, nil) only on paths no error store reaches and otherwise the error just stored; every FetchAll is cut by a positive cap on the descriptor fetched; no decoder error is dropped. '
+      'return (outcome, nil) only on paths no error store reaches and otherwise the error just stored; every FetchAll / ReadAll of fetched content is cut by a positive cap on the descriptor fetched (also when the fetch sits in a helper); the compiler-inserted range-over-func misuse panics are exempt only when every ranged iterator comes from outside the module; no decoder error is dropped. '
       'Covers the enumerated panic classes of the module\'s own code for all inputs and configurations; panics and allocations inside dependencies are not analysed.', 'DESIGN.md 2/C12')
 
 claim('C13', 'must-check gates per exit and per completed loop iteration + certified sanitizer + exact-set provenance on SSA',
@@ -102,7 +102,7 @@ claim('C15', 'reader/writer field agreement + must-check gates (incl. disjunctiv
 claim('C16', 'taint analysis with certified sanitizers (regexp/syntax certification, leaf decomposition through concatenation/Join/module helpers, value-identity of the validated leaf) + who-may-call + forward-use inventory',
       'Static, all-paths: every path handed to the plugin file system by the manager (Get, Install, Uninstall) has as non-constant leaves exactly the SSA values that a dominating, fail-closed validation accepted, where a validator counts only if its success implies the '
       'certified single-component file-name predicate (no separator, NUL, empty, ".", ".."); deletion only happens on such a path; the verifier passes the signature-supplied name only to Manager.Get; listing reports an entry only for a non-root, directory, non-symlink '
-      'DirEntry type. Holds for every name string at once; also analysed under GOOS=windows in the thorough tier. What the OS does with a validated single component is trusted.', 'DESIGN.md 2/C16')
+      'DirEntry type, and conversely every way through the listing callback records the name of an entry that is a real directory other than the root, and the callback answers fs.SkipDir only for a directory and never fs.SkipAll (no plugin directory is dropped from the listing). Holds for every name string at once; also analysed under GOOS=windows in the thorough tier. What the OS does with a validated single component is trusted.', 'DESIGN.md 2/C16')
 claim('C17', 'typestate of the exec.Cmd object (dominating unconditional stores) + must-check gates + guarded error-mapping table + who-may-call',
       'Static: decides the structural preconditions of containment — the only process start is exec.CommandContext with the caller\'s context; before Run, unconditionally, Stdout and Stderr are the module\'s limited writer with a positive constant cap, WaitDelay is a positive constant '
       'and Stdin is the request; the limited writer forwards only with a positive remaining budget, at most that budget, and accounts every forwarded byte (remaining counter or written counter); the runner succeeds only on process success and a whole-buffer json.Unmarshal of stdout; the three failure mappings and all metadata gates (incl. name == plugin name) are fail-closed. '
